@@ -217,20 +217,26 @@ def Match.test (mt : Match) (i : Nat) : Bool :=
 def Match.testInt (mt : Match) (i : Int) : Bool :=
   if i < 0 then false else mt.test i.toNat
 
-/-- The copying loop of `Apply`. The Go code writes `res.Values[j] = val` into the slice it is
-ranging over; `j ≤ i` always, so a write never reaches an element that is still to be read and
-the loop is the order-preserving selection written here. -/
-def applyLoop (mt : Match) : List Value → Nat → List Value
-  | [], _ => []
-  | v :: vs, i => if mt.test i then v :: applyLoop mt vs (i + 1) else applyLoop mt vs (i + 1)
+/-- The copying loop of `Apply`, on the backing array, as written:
+`for i, val := range res.Values { if m.Test(i) { res.Values[j] = val; j++ } }`.
+`range` fixes the length up front (`fuel`) and reads element `i` at iteration `i`; the loop
+writes element `j` of the same array. Returns the array and `j`. -/
+def applyInPlace (mt : Match) : (fuel : Nat) → (i j : Nat) → (arr : List Value) → List Value × Nat
+  | 0, _, j, arr => (arr, j)
+  | fuel + 1, i, j, arr =>
+    match arr[i]? with
+    | none => (arr, j)
+    | some val =>
+      if mt.test i then applyInPlace mt fuel (i + 1) (j + 1) (arr.set j val)
+      else applyInPlace mt fuel (i + 1) j arr
 
-/-- `Match.Apply(res)`: the new `res.Values` and the returned flag. -/
+/-- `Match.Apply(res)`: the new `res.Values` (`res.Values[:j]`) and the returned flag (`j > 0`). -/
 def Match.apply (mt : Match) (vals : List Value) : List Value × Bool :=
   if mt.all then (vals, true)
   else if !mt.any then ([], false)
   else
-    let kept := applyLoop mt vals 0
-    (kept, decide (kept.length > 0))
+    let r := applyInPlace mt vals.length 0 0 vals
+    (r.1.take r.2, decide (r.2 > 0))
 
 /-- `Filter.Apply(res)` -/
 def filterApply (f : FilterFn) (res : Res) : Res × Bool :=
@@ -245,7 +251,7 @@ structure ProjField where
   fixed : Option (List Bytes)
 
 inductive ProjErr
-  | fixedConfig | unitKey | emptyKey
+  | unknownOrder | fixedConfig | unitKey | emptyKey
   deriving Repr, DecidableEq
 
 /-- the keys `makeProjection` appends to `p.fullnameKeys` -/
@@ -264,7 +270,9 @@ def fixedFn (excl : List Bytes) (key : Bytes) (fixed : List Bytes) : FilterFn :=
 
 /-- validity of one field (`makeProjection`'s error returns that do not depend on the order name) -/
 def checkField (f : ProjField) : Except ProjErr Unit :=
-  if f.key == dotConfig then (if f.fixed.isSome then .error .fixedConfig else .ok ())
+  -- `key@fixed`: order "fixed" without a list is not an order (commit 147e6a6)
+  if f.fixed == some [] then .error .unknownOrder
+  else if f.key == dotConfig then (if f.fixed.isSome then .error .fixedConfig else .ok ())
   else if f.key == dotFullname then .ok ()
   else if f.key == dotUnit then .error .unitKey
   else if f.key.isEmpty then .error .emptyKey
